@@ -23,13 +23,15 @@ arguments of `write_board_result` are `resultArgs r` (the date is the synthetic 
 `strftime` returns the text: the model's `dateStr`).
 
 Hypotheses — each is what the INTERPRETED code needs:
-* `s.length ≤ 200000` (`write_line`, `write_tag_pair`) and the bounds `≤ 199000` on the free texts of `PbnWF`: a turn of the
-  `while` loop of `write_line` costs one level of fuel (254 characters per turn), and `runMethod` gives `topFuel = 1000`
-  levels.  The lemmas at an arbitrary fuel (`pw_write_line_call`: `k + 23` levels for `254 * k + 254` characters) have no
-  absolute bound.  This is a limit of the fuel, not of Python.
-* `PbnWF.board`, `PbnWF.tricks`: the interpreter's `str(int)` (`intStr`) prints 40 digits at most; below 10^40 it is the
-  model's `intRepr` (`pw_intStr_eq`).  `pw_board_hypothesis_needed` shows the bound is sharp.  Again a limit of the
-  interpreter, not of Python.
+* `s.length ≤ 200000` (`write_line`, `write_tag_pair`) and the bounds `≤ 199000` on the written texts of `PbnWF` (the free
+  texts, the date, and the decimal texts of the board number and of the tricks): a turn of the `while` loop of
+  `write_line` costs one level of fuel (254 characters per turn), and `runMethod` gives `topFuel = 1000` levels.  The
+  lemmas at an arbitrary fuel (`pw_write_line_call`: `k + 23` levels for `254 * k + 254` characters) have no absolute
+  bound.  This is a limit of the fuel, not of Python, and it is the ONLY limit on the sizes.
+* The numbers themselves are unrestricted: the interpreter's `str(int)` (`intStr`) is the model's `intRepr` for every
+  integer (`pw_intStr_eq`).  `PbnWF.board`, `PbnWF.tricks` bound only the number of characters printed
+  (`(intRepr n).length ≤ 199000`, for the fuel); `pw_intRepr_len` gives it from `|n| < 10 ^ f` (`f + 2` characters), and
+  `pw_wf_of_bounds` takes `|n| < 10 ^ 1000`.
 * `PbnWF.deal`: a hand of 13 cards holds ranks 2..14 (as for `Hands.to_pbn`, Translated/Hands.lean).
 * `write_tag_pair`: the tag starts with an upper-case ASCII letter (`assert tag[0].isupper()`; an empty tag raises
   `IndexError`, another first character `AssertionError`: `pw_write_tag_pair_translated_cases`).
@@ -147,9 +149,10 @@ theorem pw_resultTags_none_iff (r : PbnResult) :
     | some t =>
       cases hpo : r.contract.isPassedOut <;> cases ht : r.tricks <;> simp [hb]
 
-/-- `PbnWF` from bounds on the arguments themselves: a real date, valid cards, numbers below 10^40 -/
+/-- `PbnWF` from bounds on the arguments themselves: a real date, valid cards, numbers of 1000 digits at most (any
+bound `10 ^ f` with `f + 2 ≤ 199000` would do: only the length of the printed text matters, for the fuel) -/
 theorem pw_wf_of_bounds (r : PbnResult) (hdeal : ∀ p, ∀ c ∈ r.deal p, c.ok = true)
-    (hboard : r.boardNum.natAbs < 10 ^ 40) (htricks : ∀ n, r.tricks = some n → n.natAbs < 10 ^ 40)
+    (hboard : r.boardNum.natAbs < 10 ^ 1000) (htricks : ∀ n, r.tricks = some n → n.natAbs < 10 ^ 1000)
     (hy : r.year ≤ 9999) (hm : r.month ≤ 12) (hd : r.day ≤ 31)
     (hev : r.event.length ≤ 199000) (hsi : r.site.length ≤ 199000) (hw : r.west.length ≤ 199000)
     (hn : r.north.length ≤ 199000) (he : r.east.length ≤ 199000) (hs : r.south.length ≤ 199000) : PbnWF r :=
@@ -158,7 +161,9 @@ theorem pw_wf_of_bounds (r : PbnResult) (hdeal : ∀ p, ∀ c ∈ r.deal p, c.ok
     simp only [Card.ok, Bool.and_eq_true, decide_eq_true_eq] at hc
     exact hc.1
   { deal := fun p _ c hc => key c (hdeal p c hc)
-    board := hboard, tricks := htricks, event := hev, site := hsi, date := pw_dateStr_len _ _ _ hy hm hd,
+    board := Nat.le_trans (pw_intRepr_len 1000 _ hboard) (by decide)
+    tricks := fun n hn => Nat.le_trans (pw_intRepr_len 1000 n (htricks n hn)) (by decide)
+    event := hev, site := hsi, date := pw_dateStr_len _ _ _ hy hm hd,
     west := hw, north := hn, east := he, south := hs }
 
 /-! ## (d) a whole document -/
@@ -228,25 +233,5 @@ theorem pw_document_translated_assertion (rs : List PbnResult) (r : PbnResult) (
   rw [this]
   simp only [bind_ok, pw_write_board_result_translated_assertion r hr _ hn]
   rfl
-
-/-! ## the hypotheses are needed (kernel evaluation of both sides) -/
-def pwChunks? (x : R (Val × Val)) : Option (List Str) :=
-  match x with
-  | .ok (_, .obj _ [(_, .obj _ [(_, .tuple l)])]) => strsOf l
-  | _ => none
-
-/-- a passed-out board with number `b` -/
-def pwBoard (b : Int) : PbnResult :=
-  { event := [], site := [], year := 2000, month := 1, day := 1, boardNum := b, west := [], north := [], east := [],
-    south := [], dealer := .N, deal := fun _ => [], scoring := .IMP, contract := { finalBid := none }, tricks := none }
-
-/-- the interpreter's `str(int)` prints 40 digits at most: at 10^40 the translated program (NOT Python) prints a wrong
-board number — the bound `boardNum < 10^40` of `PbnWF` is needed -/
-theorem pw_board_hypothesis_needed :
-    pwChunks? (P.runMethod n_PbnWriter n_write_board_result (encPbnWriter [] :: resultArgs (pwBoard (10 ^ 40))))
-      ≠ writeBoardResult? (pwBoard (10 ^ 40)) ∧
-    pwChunks? (P.runMethod n_PbnWriter n_write_board_result (encPbnWriter [] :: resultArgs (pwBoard (10 ^ 40 - 1))))
-      = writeBoardResult? (pwBoard (10 ^ 40 - 1)) := by
-  decide +kernel
 
 end Bridge.Translated
